@@ -188,7 +188,9 @@ func c12Op(g *gen.G, typ byte) drv.Op {
 			return userprops()
 		}
 	case ref.Publish:
-		switch t.Pick(3, 2, 2, 2, 2, 2, 4, 2, 2) {
+		switch t.Pick(3, 2, 2, 2, 2, 2, 4, 2, 2, 2) {
+		case 9:
+			return drv.Op{Kind: "editlist", N: uint32(t.Int(8)), ID: byte(t.Int(200)), Flag: t.Bool(1, 2), B: g.Str(g.Len())}
 		case 0:
 			return drv.Op{Kind: "qos", N: uint32(t.Int(3))}
 		case 1:
@@ -253,7 +255,9 @@ func c12Op(g *gen.G, typ byte) drv.Op {
 			return userprops()
 		}
 	case ref.SubAck, ref.UnsubAck:
-		switch t.Pick(3, 3, 3, 2) {
+		switch t.Pick(3, 3, 3, 2, 2) {
+		case 4:
+			return drv.Op{Kind: "editlist", N: uint32(t.Int(8)), ID: []byte{0, 1, 2, 0x80, 0x87}[t.Int(5)]}
 		case 0:
 			return u16("packetid")
 		case 1:
